@@ -30,6 +30,9 @@ CHECKS = {
  "C11": dict(level="model_checking", technique="exhaustive enumeration of (length, segment size) pairs, fault points and all message interleavings of two concurrent transfers on real TransferManagers with the harness as the network",
    text="Real TransferManagers are joined by a harness that plays the network: every (L, m) with 1<=m<=L+2 over consecutive encoded lengths (so every divisor case occurs) plus sizes around 2^20 (segment sizes, START/END placement, concatenation, exactly-one identical bundle delivered, Send nil => delivered); every fault point (peer silent, refusing with each reason code, session closed, short/zero acknowledgement) at every segment index on an (L,m) grid with the acknowledgement timeout fired by the virtual clock; and all interleavings of the segments of two concurrent transfers (same and opposite direction, 2-3 segments each) crossed with all interleavings of the acknowledgements.",
    note="Trusted: vh harness inside pkg/cla/tcpclv4 of the scratch copy; vtime shim. Real TCP/WebSocket scheduling is not modelled (any order a reliable per-flow-ordered link can produce is explored).", design="3/C11"),
+ "C08": dict(level="model_checking", technique="explicit-state BFS over operation histories against a reference map, crash-point enumeration by killing child processes, and preemption-bounded schedule exploration of concurrent pushes",
+   text="E2: BFS over the states of a reference map (records, parts, pending, property, expiry vs virtual clock) with a 25-event alphabet (push A/B/four fragments of C incl. an overlapping one, four kinds of update, delete, advance, sweep, close+reopen) to depth 3 (quick) / 5 (thorough); every transition's history is replayed on a real store and every query, part read-back and completeness answer compared. E4: for short histories every instrumented point (every call statement in pkg/storage and every Write of the part file) of the last operation: a child process is killed exactly there, the store reopened by another process, which must find the state before or after the operation, and repeating the operation must give the reference state. E3: all schedules of 2-3 threads pushing different fragments of one bundle up to a preemption bound under the cooperative scheduler.",
+   note="Trusted: badger's crash consistency under process kill (not power loss); vinstr points in pkg/storage; vsync shim. E3 assumes atomicity between schedule points (sync operations and storage call statements).", design="3/C08"),
 }
 NA_REASON = "check not built yet in this round (planned in DESIGN.md section 3)"
 
